@@ -60,12 +60,16 @@ def _run(case, scratch):
     exp, tokens = ref.expect_document(doc10)
     sources = [("XML", "stringio", v10.to_xml(doc10, header=False)), ("XML", "file", v10.to_xml(doc10))]
     if not v10.duplicate_keys_lost(doc10):
-        sources += [("JSON", "file", v10.to_json(doc10)), ("YAML", "file", v10.to_yaml(doc10))]
+        sources += [("JSON", "file", v10.to_json(doc10)), ("YAML", "file", v10.to_yaml(doc10)),
+                    ("JSON", "file-native-scalars", v10.to_json(doc10, True)),
+                    ("YAML", "file-native-scalars", v10.to_yaml(doc10, True))]
     execs = 0
     for fmt, how, text in sources:
         path = os.path.join(scratch, "src." + fmt.lower())
-        for entry in ("convert", "str", "write_to_file"):
+        for entry in ("convert", "str", "write_to_file", "convert-twice", "convert-then-write_to_file"):
             if entry == "str" and fmt != "XML":
+                continue
+            if entry in ("convert-twice", "convert-then-write_to_file") and how == "file-native-scalars":
                 continue
             label = "%s:%s:%s" % (fmt, how, entry)
             if how == "stringio":
@@ -82,9 +86,15 @@ def _run(case, scratch):
             try:
                 if entry == "convert":
                     result = conv.convert(fmt)
+                elif entry == "convert-twice":
+                    # one converter object used twice: the second result and its log are judged
+                    conv.convert(fmt)
+                    result = conv.convert(fmt)
                 elif entry == "str":
                     result = str(conv)
                 else:
+                    if entry == "convert-then-write_to_file":
+                        conv.convert(fmt)
                     conv.write_to_file(out_path, fmt)
                     if not os.path.exists(out_path):
                         fail("write_to_file-wrote-nothing", label)
@@ -105,7 +115,7 @@ def _run(case, scratch):
                         fail("source-modified", label, "source file changed")
             # strict load
             try:
-                if entry == "write_to_file":
+                if entry.endswith("write_to_file"):
                     loaded = XMLReader(show_warnings=False).from_file(out_path)
                 else:
                     loaded = XMLReader(show_warnings=False).from_string(result)
